@@ -1442,6 +1442,8 @@ def explore(ctx, rep, rng, tier, tmpdir, events):
             st0 = r["ops"][0][1] if r["ops"] else "none"
             pred_tab["%s -> open:%s" % (m["pred"], st0 if st0 in ("ok", "exc") else "event")] = \
                 pred_tab.get("%s -> open:%s" % (m["pred"], st0 if st0 in ("ok", "exc") else "event"), 0) + 1
+            if m["pred"] == "err" and st0 == "ok":
+                rep.extra.setdefault("parser_model_says_error_but_open_succeeds", []).append({"case": m["name"], "raw": m["raw"]})
         exp = m.get("expect")
         if m["origin"] == "directed":
             got = None
